@@ -165,8 +165,34 @@ def check(ctx, parts=('cursor', 'store', 'index', 'guards', 'atomic', 'tobytes',
                 ctx.violation('R8-sorted-index', ins, m.text(), 'the slot is bisect_left(begins, position), so the successor %s may be an empty chunk that begins exactly at position; the successor test does not look at its length and rejects a chunk appended right after an empty one (false collision)' % succ, m.lineno, clause='3', witness=True)
             else:
                 ctx.undecided('R8-sorted-index', ins, m.text(), 'slot computed with bisect_left: the neighbour tests are not analysed for this form', m.lineno, clause='3')
-        else:
+        elif canon(idx) == 'len(%s)' % BG:
+            # the end of the list is the sorted slot exactly when no begin is greater than position:
+            # the list is empty, or position is not below its last (largest) begin
+            from ..model import path_facts
+            facts = set(p.guard_texts()) | set(path_facts(p))
+            last = '%s[(-1)]' % BG
+            at_tail = {'not %s' % BG, 'not len(%s)' % BG, 'not (%s < %s)' % (POS, last), 'not %s < %s' % (POS, last), '%s >= %s' % (POS, last), '%s <= %s' % (last, POS),
+                       'not (%s > %s)' % (last, POS), 'not %s > %s' % (last, POS)}
+            import re as _re
+            for g in list(facts):
+                mm = _re.match(r'^\((.*) (<=|<) 0\)$', g)
+                if mm:
+                    try:
+                        f_ = lin(ast.parse(mm.group(1), mode='eval').body)
+                    except SyntaxError:
+                        continue
+                    if f_ == {last: 1, POS: -1}:
+                        facts.add('%s <= %s' % (last, POS))
+            if facts & at_tail:
+                ctx.holds('R8-sorted-index', ins, m.text(), 'appended at the end only when no stored begin is greater than the position (%s)' % sorted(facts & at_tail)[0], m.lineno, clause='3')
+            elif any((POS in g and last in g) for g in facts):
+                ctx.undecided('R8-sorted-index', ins, m.text(), 'appended at the end under a test the rule does not read as "position is not below the last begin"', m.lineno, clause='3')
+            else:
+                ctx.violation('R8-sorted-index', ins, m.text(), 'the position is appended at the end of the begins list whatever its value: the begins list loses its order', m.lineno, clause='3', witness=True)
+        elif I in lin(idx) or 'bisect' in canon(idx):
             ctx.violation('R8-sorted-index', ins, m.text(), 'insertion index %s is not bisect_right(begins, position): the begins list loses its order' % canon(idx), m.lineno, clause='3')
+        else:
+            ctx.undecided('R8-sorted-index', ins, m.text(), 'insertion index %s: cannot see that it is the sorted slot of the position' % canon(idx), m.lineno, clause='3')
 
     # ---------------------------------------------------------- (3') both bisects: the chunk AT position
     if 'guards' in parts or 'index' in parts:
